@@ -19,10 +19,11 @@ import threading
 import time
 
 from . import build
-from .core import MachineryError, Part, merge_worker_outputs, parallel_replay
+from .core import trim, MachineryError, Part, merge_worker_outputs, parallel_replay
 from .tlc import run_tlc
 
 _local = threading.local()
+LONG_PREFIX = "a_rather_long_but_perfectly_legal_prefix_for_generated_relation_names_xyz"
 
 
 class Scheduler:
@@ -105,7 +106,9 @@ def run_schedule(st: dict, out: dict) -> None:
             for _ in range(requests):
                 mode = tid % 3
                 if mode == 1:
-                    names[tid].append(("leaf", eng.get_relation_name("leaf")))
+                    # every other request uses a very long prefix (uniqueness and the prefix must survive it)
+                    prefix = "leaf" if len(names[tid]) % 2 == 0 else LONG_PREFIX
+                    names[tid].append((prefix, eng.get_relation_name(prefix)))
                 elif mode == 2:
                     leaf = LeafRelation(eng, cols, RowSequence([]), min_rows=0, max_rows=0)
                     names[tid].append(("leaf", leaf.name))
@@ -173,8 +176,8 @@ def worker(lines, ctx):
         if st["lost"]:
             out["nontrivial"] += 1      # a schedule in which a counter update is lost
         run_schedule(st, out)
-        if len(out["violations"]) > 20:
-            out["violations"] = out["violations"][:20]
+        if len(out["violations"]) > 60:
+            out["violations"] = trim(out["violations"])
         if len(out["samples"]) < 1 and st["lost"]:
             out["samples"].append({"sched": st["sched"], "counter": st["counter"], "engineOf": st["engineOf"]})
     return out
@@ -195,7 +198,7 @@ def free_run(part: Part, n_rounds: int) -> None:
             lock = threading.Lock()
 
             def body(e):
-                mine = [e.get_relation_name("leaf") for _ in range(200)]
+                mine = [e.get_relation_name("leaf") for _ in range(200)] + [e.get_relation_name(LONG_PREFIX) for _ in range(50)]
                 with lock:
                     got.extend(mine)
 
@@ -208,7 +211,7 @@ def free_run(part: Part, n_rounds: int) -> None:
             if len(set(got)) != len(got):
                 part.violations.append({"properties": ["C19"], "family": "names", "what": "duplicate names from free-running threads",
                                         "case": {"threads": 6, "engines": 2, "requests": 200}})
-            if not all(n.startswith("leaf_") for n in got):
+            if not all(n.startswith("leaf_") or n.startswith(LONG_PREFIX + "_") for n in got):
                 part.violations.append({"properties": ["C19"], "family": "names", "what": "a name without the requested prefix", "case": {}})
     finally:
         sys.setswitchinterval(old)
